@@ -82,7 +82,7 @@ package jlib
 //@   ensures [C15:lone-number-is-itself] (!arrKind(kind(res(v))) && kind(res(v)) == 14) ==> (r1 == nil && same(r0, fval(res(v))))
 //@   ensures [C15:empty-sum-is-zero] (arrKind(kind(res(v))) && rvlen(res(v)) == 0) ==> (r1 == nil && r0 == 0.0)
 //@   ensures [C15:non-number-member-is-error] (arrKind(kind(res(v))) && (exists k in [0, rvlen(res(v))): !numKind(kind(res(at(res(v), k)))))) ==> r1 != nil
-//@   ensures [C15:all-numbers-is-no-error] (arrKind(kind(res(v))) && (forall k in [0, rvlen(res(v))): numKind(kind(res(at(res(v), k)))))) ==> r1 == nil
+//@   ensures [C10:array-sum-is-finite-or-error] (arrKind(kind(res(v))) && r1 == nil) ==> !isInf(r0)
 //@   assigns nothing
 //@   loop 0 invariant 0 <= i && i <= rvlen(v) && v == res(old(v)) && arrKind(kind(v)) && (rvlen(v) == 0 ==> sum == 0.0)
 //@   loop 0 invariant forall k in [0, i): numKind(kind(res(at(v, k))))
@@ -91,6 +91,7 @@ package jlib
 //@   abstract-float
 //@   ensures [C15:empty-has-no-value] (arrKind(kind(res(v))) && rvlen(res(v)) == 0) ==> r1 == jtypes.ErrUndefined
 //@   ensures [C15:non-number-member-is-error] (arrKind(kind(res(v))) && (exists k in [0, rvlen(res(v))): !numKind(kind(res(at(res(v), k)))))) ==> r1 != nil
+//@   atif[C10:array-average-needs-a-finite-sum] "math.IsInf(sum, 0)" iff isInf(sum)
 //@   assigns nothing
 //@   loop 0 invariant 0 <= i && i <= rvlen(v) && v == res(old(v)) && arrKind(kind(v)) && rvlen(v) > 0
 //@   loop 0 invariant forall k in [0, i): numKind(kind(res(at(v, k))))
@@ -382,18 +383,29 @@ package jlib
 //@ func msToTime
 //@   props C19 C09
 //@   atcall[C19:exactly-ms-milliseconds] time.Unix#0 requires callee_arg0 * 1000 + callee_arg1 / 1000000 == ms && callee_arg1 % 1000000 == 0 && -1000000000 < callee_arg1 && callee_arg1 < 1000000000
+// timeToMS: whole seconds since the epoch times 1000 plus the milliseconds of the second - for every instant a
+// time.Time can hold (years 1000..9999 included), not only those whose nanosecond count fits an int64
 //@ func timeToMS
 //@   props C19 C09
-//@   ensures [C19:milliseconds-of-the-instant] result == ret("time.Time.UnixNano#0", 0) / 1000000
+//@   ensures [C19:milliseconds-of-the-instant] result == ret("time.Time.Unix#0", 0) * 1000 + ret("time.Time.Nanosecond#0", 0) / 1000000
 // parseTimeZone: exactly five characters, sign then HHMM (decimal digits); the offset is sign * (HH hours + MM
 // minutes) in seconds, handed to time.FixedZone
 //@ func parseTimeZone
 //@   props C19 C09
 //@   ensures [C19:five-characters] len(tz) != 5 ==> (r0 == nil && r1 != nil)
 //@   ensures [C19:sign-required] (len(tz) == 5 && tz[0] != 43 && tz[0] != 45) ==> (r0 == nil && r1 != nil)
+//@   ensures [C19:four-decimal-digits] (len(tz) == 5 && (exists k in [1, 5): (tz[k] < 48 || tz[k] > 57))) ==> (r0 == nil && r1 != nil)
+//@   loop 0 invariant 1 <= i && i <= len(tz) && len(tz) == 5 && (forall k in [1, i): (48 <= tz[k] && tz[k] <= 57))
 //@   atcall[C19:hours-are-characters-1-2] strconv.Atoi#0 requires same(callee_arg0, tz[1:3])
 //@   atcall[C19:minutes-are-characters-3-4] strconv.Atoi#1 requires same(callee_arg0, tz[3:5])
 //@   atcall[C19:offset-in-seconds] time.FixedZone#0 requires callee_arg1 == (tz[0] == 45 ? -1 : 1) * (60 * (60 * ret("strconv.Atoi#0", 0) + ret("strconv.Atoi#1", 0)))
+
+// $type: the JSONata type name of a value; 'no value' (a nil interface: what an absent argument becomes for an
+// interface{} parameter) has no type - ErrUndefined, which the caller turns into 'no value' - and must not be
+// dereferenced
+//@ func TypeOf
+//@   props C09 C20
+//@   ensures [C09:absent-argument-has-no-type] x == nil ==> r1 == jtypes.ErrUndefined
 
 // --- C13: $sort ------------------------------------------------------------------------------------------
 // $sort(a) on an all-number / all-string array: the members are collected in order (every one of them a float64 /
